@@ -56,12 +56,20 @@ func VerifC09_FragmentBoundaries() {
 	k2, v2 := vsym.Bytes("k2", 1), vsym.Bytes("v2", 1)
 	s2, err := w.Append(OpTypePut, k2, v2)
 	vsym.Assert(err == nil, "Append of the small entry failed")
+	// a second fragmented entry in the same file, not larger than the first (whatever the reader keeps from entry
+	// to entry - buffers, fragments - meets an entry of the same kind again); the consumer keeps every entry it
+	// is handed and looks at them afterwards
+	k3, v3 := vsym.Bytes("k3", 1), sparse("v3", MaxRecordSize+10, 0, MaxRecordSize-5, MaxRecordSize+9)
+	s3, err := w.Append(OpTypePut, k3, v3)
+	vsym.Assert(err == nil, "Append of the second large entry failed")
 	vsym.Assert(w.Close() == nil, "Close failed")
 	var got []*Entry
 	_, err = ReplayWALDir(dir, func(e *Entry) error { got = append(got, e); return nil })
 	vsym.Assert(err == nil, "replay failed")
-	vsym.Assert(len(got) == 2, "replay does not yield exactly the two appended operations")
-	if len(got) == 2 {
+	vsym.Assert(len(got) == 3, "replay does not yield exactly the three appended operations")
+	if len(got) == 3 {
+		vsym.Assert(got[2].SequenceNumber == s3 && s3 > s2, "second large entry: sequence number differs")
+		vsym.Assert(vsym.EqBytes(got[2].Key, k3) && len(got[2].Value) == len(v3) && vsym.EqBytes(got[2].Value, v3), "second large entry differs")
 		vsym.Assert(got[0].SequenceNumber == s1 && got[1].SequenceNumber == s2, "sequence numbers differ or order changed")
 		vsym.Assert(len(got[0].Key) == len(k) && vsym.EqBytes(got[0].Key, k), "large entry: key differs")
 		vsym.Assert(len(got[0].Value) == len(v) && vsym.EqBytes(got[0].Value, v), "large entry: value differs")
